@@ -41,7 +41,8 @@ THEOREMS = ["Time.C13_gmt", "Time.C13_local", "Time.C13_rejects", "Time.C13_frac
             "Obligations.time_noon_midnight", "Obligations.time_hms", "Obligations.time_cached_seconds",
             "Obligations.time_conditions", "Obligations.time_frac_table", "Obligations.time_frac_ctor",
             "Obligations.time_strftime_buffer", "Obligations.time_local_period", "Obligations.model_tables_coherent",
-            "Obligations.C13_extracted"]
+            "Obligations.model_patch_text", "Obligations.C13_extracted",
+            "Time.SFT.step_spec", "Time.TF.step_spec", "Time.TF.init_spec", "Time.charsOf_lex", "Time.lex_charsOf"]
 MODULES = ["QuillModel.Props.C13"]
 OBLIG = ["QuillModel.Obligations.Time"]
 
@@ -200,14 +201,14 @@ def run(prop, tier):
     open(zq, "w").write("\n".join(QUICK_ZONES) + "\n")
     runs = []  # (label, argv)
     if tier == "quick":
-        runs.append(("gen seed=%d quick zones" % ck.seed, [hbin, "gen", str(ck.seed), "60", "40", zq]))
+        runs.append(("gen seed=%d quick zones" % ck.seed, [hbin, "gen", str(ck.seed), "400", "40", zq]))
     else:
         za = os.path.join(vlib.CACHE, "zones_all.txt")
         zones = all_zones()
         open(za, "w").write("\n".join(zones) + "\n")
         for sd in (ck.seed, ck.seed + 1000, ck.seed + 2000):
-            runs.append(("gen seed=%d quick zones deep" % sd, [hbin, "gen", str(sd), "400", "48", zq]))
-        runs.append(("gen seed=%d all %d zones" % (ck.seed + 3000, len(zones)), [hbin, "gen", str(ck.seed + 3000), "20", "40", za]))
+            runs.append(("gen seed=%d quick zones deep" % sd, [hbin, "gen", str(sd), "3000", "48", zq]))
+        runs.append(("gen seed=%d all %d zones" % (ck.seed + 3000, len(zones)), [hbin, "gen", str(ck.seed + 3000), "40", "40", za]))
 
     tot = dict(lines=0, cases=0, applies=0, nontrivial=0, mism=0, problems=0)
     counters = {}
@@ -311,7 +312,7 @@ def run(prop, tier):
             cls &= {"F16"}
         else:
             cls &= {"F8", "F16", "F18"}
-        live = sorted(c for c in cls if finding_status(c) != "fixed")
+        live = [c for c in ("F8", "F16", "F17", "F18") if c in cls and finding_status(c) != "fixed"]  # pattern classes first
         if live:
             known_seen.setdefault(live[0], []).append((label, ln, clines))
         else:
